@@ -15,35 +15,68 @@ import (
 )
 
 
-// ---------- the plugin's two pipes: a source yields its chunks, then blocks ----------
+// ---------- the plugin's two pipes: a source yields its writes (one pipe read returns what one write left, at most as
+// much as was asked for), then blocks ----------
 type vSrc struct {
-	chunks []string
+	chunks []string // the writes
 	next   int
+	off    int // bytes of chunks[next] already handed out
 }
 
 func (*vSrc) Read(p []byte) (int, error) { return 0, io.EOF }
 
-var readerG = map[*bufio.Reader]*vSrc{}
+// bufio.Reader with its default 4096-byte buffer: when the buffer is empty it is filled by ONE read of the source (up to
+// 4096 bytes), and Read hands out at most len(p) of what is buffered; the rest stays in THIS reader's buffer.
+type rdGhost struct {
+	src    *vSrc
+	w      string // the write the buffered bytes come from
+	off, n int    // buffered: w[off : off+n]
+}
+
+var readerG = map[*bufio.Reader]*rdGhost{}
 var never = make(chan struct{})
 
 //verif:model bufio.NewReader
 func mNewReader(r io.Reader) *bufio.Reader {
 	b := new(bufio.Reader)
-	readerG[b] = r.(*vSrc)
+	readerG[b] = &rdGhost{src: r.(*vSrc)}
 	return b
 }
 
-// Read returns the next chunk (1..len(p) bytes, here ≤ 1024), storing it in p's backing array.
 //verif:model (*bufio.Reader).Read
 func mBufRead(b *bufio.Reader, p []byte) (int, error) {
 	g := readerG[b]
-	if g.next >= len(g.chunks) {
-		vDaemon()
-		<-never
+	if g.n == 0 {
+		s := g.src
+		if s.next >= len(s.chunks) {
+			vDaemon()
+			<-never
+		}
+		w := s.chunks[s.next]
+		take := len(w) - s.off
+		if take > 4096 {
+			take = 4096
+		}
+		g.w, g.off, g.n = w, s.off, take
+		s.off += take
+		if s.off == len(w) {
+			s.next++
+			s.off = 0
+		}
 	}
-	c := g.chunks[g.next]
-	g.next++
-	return vFillBytes(p, c), nil
+	k := g.n
+	if k > len(p) {
+		k = len(p)
+	}
+	var chunk string
+	if g.off == 0 && k == len(g.w) {
+		chunk = g.w // a whole write in one piece
+	} else {
+		chunk = vSub(g.w, g.off, k)
+	}
+	g.off += k
+	g.n -= k
+	return vFillBytes(p, chunk), nil
 }
 
 // ---------- the gRPC stream between StreamStdio (plugin) and Run (host): Send marshals at call time ----------
@@ -136,6 +169,35 @@ func chunk(tag string) string {
 	c := vNondetStr(tag, "")
 	vAssume(len(c) >= 1 && len(c) <= 1024)
 	return c
+}
+
+// harnessC11large: one stdout write of symbolic length 1..5000 (either side of the 1 KiB chunk and of bufio's 4 KiB
+// buffer), then a short one: what SyncStdout receives, piece by piece, is exactly the first write followed by the second.
+func harnessC11large() {
+	W := vNondetStr("W", "")
+	vAssume(len(W) >= 1 && len(W) <= 5000)
+	o2 := chunk("o2")
+	vAssume(len(o2) <= 100)
+	srcOut, srcErr := &vSrc{chunks: []string{W, o2}}, &vSrc{}
+	srv := newGRPCStdioServer(vLogger{}, srcOut, srcErr)
+	go func() { vDaemon(); srv.StreamStdio(&empty.Empty{}, &srvStream{bgCtx{}}) }()
+	wOut, wErr := &vWriter{}, &vWriter{}
+	cl := &grpcStdioClient{log: vLogger{}, stdioClient: &cliStream{bgCtx{}}}
+	go func() { vDaemon(); cl.Run(wOut, wErr) }()
+	vSleepUntil(1)
+	n := len(wOut.got)
+	vAssert(n >= 2 && n <= 7, "C11: the large write and the small one both arrive")
+	vAssert(wOut.got[n-1] == o2, "C11: the write after a large one arrives unchanged")
+	vAssert(vConcatIs(wOut.got[:n-1], W), "C11: a write larger than one chunk arrives complete and in order (nothing dropped between chunks)")
+	vAssert(len(wErr.got) == 0, "C11: nothing crosses streams")
+	if len(W) > 4096 {
+		vCover("beyond-bufio-buffer")
+	} else if len(W) > 1024 {
+		vCover("several-chunks")
+	} else {
+		vCover("one-chunk")
+	}
+	vDone()
 }
 
 func harnessC11() {
